@@ -137,7 +137,10 @@ def _build_chunk(args):
         pat = "".join("u" if p[1] == 0 else "f" for p in rec["pays"])
         pc = _pool_class(rec)
         classes.add((pat, pc, len(rec["sps"])))
-        got, tx, w = drv.build(rec["sps"], rec["pays"], rec["fee"], spf, unf, entry)
+        if "_got" in rec:      # binding self-test: a canned observation instead of an execution
+            got, tx, w = rec["_got"], None, None
+        else:
+            got, tx, w = drv.build(rec["sps"], rec["pays"], rec["fee"], spf, unf, entry)
         nexec += 1
         v = _judge_build(_exp_small(rec), got)
         if v:
@@ -167,7 +170,7 @@ def _build_chunk(args):
                 if v:
                     fails.append(("C13|build-scaled|%s|%s" % (pc.split(":")[0] if pc[0] == "n" else pc, v[0]),
                                   "create_tx(%s, %s, fee=%s) (request x %d, +%d): %s" % (sps, pays, fee, K, sc["r"], v[1]),
-                                  {"rec": {k: rec[k] for k in ("sps", "pays", "fee")}, "K": K, "sc": sc, "got": got}))
+                                  {"rec": dict(rec, sc=[sc]), "K": K, "got": got}))
                     break
     return nexec, fails, classes
 
@@ -179,7 +182,7 @@ def _validate_chunk(recs):
     for rec in recs:
         kinds = "+".join(sorted(m[0] for m in rec["muts"])) or "none"
         for mult in (1, 10 ** 8, 3 * 10 ** 14):
-            got = drv.validate_case(rec, mult)
+            got = rec["_got"] if "_got" in rec else drv.validate_case(rec, mult)
             n += 1
             if rec["status"] == "raise":
                 if "exc" not in got:
@@ -201,7 +204,8 @@ def _conv_class(sat):
     return "digits=%d" % n
 
 
-def _conv_chunk(recs):
+def _conv_chunk(args):
+    recs, check_r2 = args
     drv = _drv()
     fails = []
     n = 0
@@ -211,9 +215,9 @@ def _conv_chunk(recs):
         sat = "".join(rec["sat"])
         coin = "".join(rec["coin"])
         # R2: the spec's text against exact rationals (stdlib)
-        if Fraction(coin) != Fraction(int(sat), 10 ** D):
+        if check_r2 and Fraction(coin) != Fraction(int(sat), 10 ** D):
             raise MachineryError("CoinDecimal: %s satoshi -> %s %s is not exact" % (sat, coin, unit))
-        got = drv.sat_to_coin(D, int(sat))
+        got = rec["_got"] if "_got" in rec else drv.sat_to_coin(D, int(sat))
         n += 1
         if not drv.same_amount_text(got, coin):
             fails.append(("C13|conv|satoshi_to_%s|%s" % (unit, "exc" if got[:1] == "!" else "inexact"),
@@ -221,7 +225,7 @@ def _conv_chunk(recs):
         for text, want in rec["texts"]:
             t = "".join(text)
             want = "".join(want)
-            if Fraction(t) * 10 ** D != int(want):
+            if check_r2 and Fraction(t) * 10 ** D != int(want):
                 raise MachineryError("CoinDecimal: %s %s -> %s satoshi is not exact" % (t, unit, want))
             forms = ["str", "decimal"] + (["int"] if "." not in t else [])
             for form in forms:
@@ -233,6 +237,8 @@ def _conv_chunk(recs):
                         g = "!" + type(e).__name__
                 else:
                     g = drv.coin_to_sat(D, t, form)
+                if "_got" in rec:
+                    g = rec["_got2"]
                 n += 1
                 if g != want:
                     fails.append(("C13|conv|%s_to_satoshi|%s|%s" % (unit, form, "exc" if g[:1] == "!" else "inexact"),
@@ -312,7 +318,7 @@ def _trace_scenario(rnd):
     label_of = {h: s for s, h in hash_of.items()}
     # what the spender was told (possibly a lie about one input)
     told = [[s, k, truth[s][k][0], truth[s][k][1]] for s, k in ins]
-    lie = rnd.choice([None, None, "amount", "amount1", "script", "index", "index1"])
+    lie = rnd.choice([None, None, None, None, "amount", "amount1", "script", "index", "index1"])
     j = rnd.randrange(nin)
     if lie == "amount":
         told[j][2] = _rand_amount(rnd) if rnd.random() < 0.5 else told[j][2] * 10
@@ -468,6 +474,28 @@ def _trace_key(t):
     return "C13|trace|rejected|%s|lie=%s" % (kinds, t["meta"]["lie"])
 
 
+def _canned_trace():
+    """hand-made scenario with realistic amounts (self-test of the trace binding)"""
+    L = _drv().limbs
+    a1, a2 = MAX_MONEY - 1, 10003
+    fee = 10001
+    tin = a1 + a2
+    q, r = divmod(tin - 50000 - fee, 3)
+    assert r == 2
+    outs = [[1, L(q + 1)], [2, L(50000)], [3, L(q + 1)], [4, L(q)]]
+    build = {"k": "build", "sps": [[1, 0, L(a1), 1], [2, 1, L(a2), 2]],
+             "pays": [[1, []], [2, L(50000)], [3, []], [4, []]], "fee": L(fee), "err": False,
+             "ins": [[1, 0], [2, 1]], "unsp": [[L(a1), 1], [L(a2), 2]], "outs": outs,
+             "tin": L(tin), "tout": L(tin - fee), "fsign": 1, "fmag": L(fee)}
+    db = [{"st": "tx", "id": 1, "outs": [[L(a1), 1]]}, {"st": "tx", "id": 2, "outs": [[L(5), 1], [L(a2), 2]]}]
+    v1 = {"k": "validate", "unsp": build["unsp"], "db": db, "ret": True, "fsign": 1, "fmag": L(fee)}
+    v2 = {"k": "validate", "unsp": build["unsp"], "db": [db[0], {"st": "missing", "id": 0, "outs": []}],
+          "ret": False, "fsign": 0, "fmag": []}
+    c1 = {"k": "conv", "dir": "s2c", "D": 8, "sat": list(str(a1)), "coin": list("20999999.99999999")}
+    c2 = {"k": "conv", "dir": "c2s", "D": 5, "sat": list("10003"), "coin": list("0.10003")}
+    return {"ev": [build, v1, v2, c1, c2], "meta": {"lie": "canned"}}
+
+
 # ------------------------------------------------------------------ run
 
 def run(ctx):
@@ -494,17 +522,22 @@ def run(ctx):
         w = 16
         ctx.tlc("TxBuild", "MC_TxBuild_q" if q else "MC_TxBuild_t", workers=w, coverage=not q, timeout=2400,
                 require_actions=() if q else ("Pick", "Start", "DealOne", "Finish"))
+        if not q:
+            ctx.tlc("TxBuild", "MC_TxBuild_t2", workers=w, timeout=2400)
         ctx.tlc("TxBuild", "MC_TxBuild_uniq_q" if q else "MC_TxBuild_uniq_t", workers=w, timeout=2400)
         ctx.tlc("TxBuild", "MC_TxBuild_scale_q" if q else "MC_TxBuild_scale_t", workers=w, timeout=2400)
         for cfg in (("MC_Limbs_b3", "MC_Limbs_b10000") if q else ("MC_Limbs_b3", "MC_Limbs_b10", "MC_Limbs_b10000")):
             ctx.tlc("MC_Limbs", cfg, workers=4)
         ctx.tlc("MC_Unspents", "MC_Unspents_q" if q else "MC_Unspents_t", workers=w, coverage=not q, timeout=2400,
-                require_actions=() if q else ("MPick", "Examine", "Return"))
+                require_actions=() if q else ("MPick", "MExamine", "MReturn"))
         ctx.tlc("MC_CoinDecimal", "MC_CoinDecimal_q" if q else "MC_CoinDecimal_t", workers=4 if q else w, timeout=2400)
         # teeth of the model: each wrong closed form must violate the rule book
         for v in ("late", "offbyone", "zero", "nofee"):
             r = ctx.tlc("TxBuild", "MC_TxBuild_mut_" + v, expect_ok=False, count=False, workers=2)
             ctx.selftest("model_rejects_" + v, (not r.ok) and r.violated == "BuildOK")
+
+    if stage("apalache") and not q:
+        _apalache(ctx)
 
     # ---------------------------------------------------------------- 2. spec -> code
     classes = set()
@@ -538,18 +571,21 @@ def run(ctx):
             ctx.action("replay." + cfg, st.n)
         for c in classes:
             ctx.case(("build",) + c, 0)
-        # binding self-test: an expectation whose remainder sits on the later output / whose fee is off
+        # binding self-test (independent of pycoin): against a canned observation, the exported
+        # expectation passes and each corruption of one expected value is rejected
+        obs = {"ins": [[1, 0]], "unsp": [[7, 2, 1, 0]], "outs": [[1, 4], [2, 3]], "tin": 7, "tout": 7, "fee": 0}
         rec = {"k": "build", "sps": [[1, 0, 7, 2]], "pays": [[1, 0], [2, 0]], "fee": 0, "err": False, "mayerr": False,
-               "ins": [[1, 0]], "unsp": [[7, 2]], "outs": [[1, 3], [2, 4]], "tin": 7, "tout": 7, "rfee": 0, "nu": 2, "sc": []}
-        _, f1, _ = _build_chunk(([rec], False))
-        good = dict(rec, outs=[[1, 4], [2, 3]])
-        _, f0, _ = _build_chunk(([good], False))
-        bad2 = dict(good, rfee=1)
-        _, f2, _ = _build_chunk(([bad2], False))
-        bad3 = dict(good, err=True, outs=[], ins=[], unsp=[])
-        _, f3, _ = _build_chunk(([bad3], False))
+               "ins": [[1, 0]], "unsp": [[7, 2]], "outs": [[1, 4], [2, 3]], "tin": 7, "tout": 7, "rfee": 0, "nu": 2, "sc": [],
+               "_got": obs}
+        f0 = _build_chunk(([rec], False))[1]
+        f1 = _build_chunk(([dict(rec, outs=[[1, 3], [2, 4]])], False))[1]
+        f2 = _build_chunk(([dict(rec, rfee=1)], False))[1]
+        f3 = _build_chunk(([dict(rec, err=True, outs=[], ins=[], unsp=[])], False))[1]
+        f4 = _build_chunk(([dict(rec, unsp=[[7, 1]])], False))[1]
+        f5 = _build_chunk(([dict(rec, _got={"exc": "ValueError"})], False))[1]
         ctx.selftest("replay_rejects_corrupted_expectation",
-                     not f0 and len(f1) == 1 and "split" in f1[0][0] and len(f2) == 1 and len(f3) == 1)
+                     not f0 and len(f1) == 1 and "split" in f1[0][0] and len(f2) == 1 and len(f3) == 1
+                     and len(f4) == 1 and "pairing" in f4[0][0] and len(f5) == 1)
 
     if stage("signed"):
         _signed_subset(ctx)
@@ -580,19 +616,20 @@ def run(ctx):
         ctx.action("replay.MC_UnspentsReplay", st.n)
         for k in vkeys:
             ctx.case(("validate",) + k, 0)
-        # binding self-test: flip the verdict of an honest pair and of a lying one
+        # binding self-test (independent of pycoin): canned observations against corrupted verdicts
         honest = {"k": "validate", "ins": [[2, 0]], "unsp": [[5, 1]], "outs": [[1, 2]],
                   "db": [{"st": "tx", "id": 1, "outs": [[5, 1], [5, 2], [7, 1]]}, {"st": "tx", "id": 2, "outs": [[5, 1]]}],
-                  "truth": [[[5, 1], [5, 2], [7, 1]], [[5, 1]]], "muts": [], "status": "ret", "why": "ok", "fee": 3}
-        _, g0 = _validate_chunk([honest])
-        _, g1 = _validate_chunk([dict(honest, status="raise", why="amount")])
-        _, g2 = _validate_chunk([dict(honest, fee=4)])
-        lying = dict(honest, unsp=[[5, 2]], muts=[["script", 1, 1]], status="ret")
-        _, g3 = _validate_chunk([lying])
-        ctx.selftest("validate_replay_rejects_corrupted_verdict", not g0 and len(g1) == 1 and len(g2) == 1 and len(g3) == 1)
+                  "truth": [[[5, 1], [5, 2], [7, 1]], [[5, 1]]], "muts": [], "status": "ret", "why": "ok", "fee": 0}
+        g0 = _validate_chunk([dict(honest, _got={"ret": 0})])[1]
+        g1 = _validate_chunk([dict(honest, status="raise", why="amount", _got={"ret": 0})])[1]
+        g2 = _validate_chunk([dict(honest, _got={"ret": 1})])[1]
+        g3 = _validate_chunk([dict(honest, _got={"exc": "BadSpendableError"})])[1]
+        g4 = _validate_chunk([dict(honest, status="raise", why="script", _got={"exc": "BadSpendableError"})])[1]
+        ctx.selftest("validate_replay_rejects_corrupted_verdict",
+                     not g0 and len(g1) == 1 and len(g2) == 1 and len(g3) == 1 and not g4)
 
     if stage("conv"):
-        st = Stream(_conv_chunk, chunk=200)
+        st = Stream(_conv_chunk, wrap=lambda c: (c, True), chunk=200)
         ckeys = set()
 
         def onc(rec):
@@ -617,11 +654,16 @@ def run(ctx):
         ctx.action("replay.MC_CoinDecimalReplay", st.n)
         for k in ckeys:
             ctx.case(("conv",) + k, 0)
+        # binding self-test (independent of pycoin)
         rec = {"k": "conv", "D": 8, "sat": list("29"), "coin": list("0.00000029"),
-               "texts": [[list("0.00000029"), list("29")]]}
-        _, h0 = _conv_chunk([rec])
-        _, h1 = _conv_chunk([dict(rec, texts=[[list("0.00000029"), list("28")]])])
-        ctx.selftest("conv_replay_rejects_corrupted_expectation", not h0 and len(h1) == 2)
+               "texts": [[list("0.00000029"), list("29")]], "_got": "0.00000029", "_got2": "29"}
+        h0 = _conv_chunk(([rec], True))[1]
+        h1 = _conv_chunk(([dict(rec, texts=[[list("0.00000029"), list("28")]])], False))[1]
+        h2 = _conv_chunk(([dict(rec, coin=list("0.00000028"))], False))[1]
+        h3 = _conv_chunk(([dict(rec, _got="2.9E-7")], False))[1]
+        h4 = _conv_chunk(([dict(rec, _got="0.29E-6", coin=list("0.0000003"))], False))[1]
+        ctx.selftest("conv_replay_rejects_corrupted_expectation",
+                     not h0 and len(h1) == 2 and len(h2) == 1 and len(h3) == 1 and len(h4) == 1)
 
     # ---------------------------------------------------------------- 3. code -> spec
     if stage("traces"):
@@ -654,38 +696,71 @@ def run(ctx):
                 ctx.fail(_trace_key(t), "recorded pycoin execution is not allowed by TxRules/UnspentRules/CoinDecimal: %s" % (
                     json.dumps(t["meta"]),), t)
         ctx.log("trace events: %s" % stats)
-        # binding self-test: corrupt one logged field of accepted traces
-        drv = _drv()
-        g = next(t for t in traces if not t["ev"][0]["err"] and len(t["ev"][0]["outs"]) >= 2
-                 and sum(1 for p in t["ev"][0]["pays"] if not p[1]) >= 2)
-        b1 = copy.deepcopy(g)
-        us = [i for i, p in enumerate(b1["ev"][0]["pays"]) if not p[1]]
+        # binding self-test (independent of pycoin): a canned scenario is accepted, each corruption
+        # of one logged field is rejected
+        g = _canned_trace()
+        L = _drv().limbs
+
+        def val(x):
+            return sum(d * 10000 ** k for k, d in enumerate(x))
+        b1 = copy.deepcopy(g)        # one satoshi moved from the first unspecified output to the last (sum preserved)
         o = b1["ev"][0]["outs"]
-        # move one satoshi from the first unspecified output to the last one (sum preserved)
-        a0 = sum(x * 10000 ** k for k, x in enumerate(o[us[0]][1]))
-        a1 = sum(x * 10000 ** k for k, x in enumerate(o[us[-1]][1]))
-        o[us[0]][1], o[us[-1]][1] = drv.limbs(a0 - 1), drv.limbs(a1 + 1)
-        b2 = copy.deepcopy(g)
-        b2["ev"][0]["fmag"] = drv.limbs(sum(x * 10000 ** k for k, x in enumerate(b2["ev"][0]["fmag"])) + 1)
-        b2["ev"][0]["fsign"] = 1
-        gv = next(t for t in traces if any(e["k"] == "validate" and not e["ret"] for e in t["ev"]))
-        b3 = copy.deepcopy(gv)
-        for e in b3["ev"]:
-            if e["k"] == "validate" and not e["ret"]:
-                e["ret"] = True
-                break
-        gc = next(t for t in traces if any(e["k"] == "conv" for e in t["ev"]))
-        b4 = copy.deepcopy(gc)
-        for e in b4["ev"]:
-            if e["k"] == "conv":
-                e["sat"] = list(str(int("".join(e["sat"])) + 1))
-                break
-        b5 = copy.deepcopy(g)
-        if len(b5["ev"][0]["ins"]) >= 1:
-            b5["ev"][0]["unsp"][0][1] = b5["ev"][0]["unsp"][0][1] % 4 + 1
-        rej = validate_traces(ctx, [g, b1, b2, gv, b3, gc, b4, b5])
-        ctx.selftest("trace_rejects_corrupted_field", rej == [1, 2, 4, 6, 7])
+        o[0][1], o[3][1] = L(val(o[0][1]) - 1), L(val(o[3][1]) + 1)
+        b2 = copy.deepcopy(g)        # reported fee off by one
+        b2["ev"][0]["fmag"] = L(val(b2["ev"][0]["fmag"]) + 1)
+        b3 = copy.deepcopy(g)        # validate_unspents "returned" against a database that misses a source
+        b3["ev"][2]["ret"] = True
+        b4 = copy.deepcopy(g)        # conversion off by one satoshi
+        b4["ev"][3]["sat"] = list(str(int("".join(b4["ev"][3]["sat"])) + 1))
+        b5 = copy.deepcopy(g)        # second input paired with another script
+        b5["ev"][0]["unsp"][1][1] = 3
+        b6 = copy.deepcopy(g)        # a transaction although one unspecified output would get nothing
+        b6["ev"][0]["fee"] = L(val(g["ev"][0]["tin"]) - 50000 - 2)
+        b6["ev"][0]["fmag"] = b6["ev"][0]["fee"]
+        b6["ev"][0]["outs"] = [[1, L(1)], [2, L(50000)], [3, L(1)], [4, []]]
+        b6["ev"][0]["tout"] = L(50002)
+        b7 = copy.deepcopy(g)        # honest database but the call "raised"
+        b7["ev"][1]["ret"] = False
+        b8 = copy.deepcopy(g)        # inputs in another order than the spendables
+        b8["ev"][0]["ins"] = b8["ev"][0]["ins"][::-1]
+        b9 = copy.deepcopy(g)        # error although the funds suffice
+        b9["ev"] = [dict(g["ev"][0], err=True, ins=[], unsp=[], outs=[], tin=[], tout=[], fsign=0, fmag=[])]
+        rej = validate_traces(ctx, [g, b1, b2, b3, b4, b5, b6, b7, b8, b9])
+        ctx.selftest("trace_rejects_corrupted_field", rej == list(range(1, 10)))
     ctx.exhaustive = True
+
+
+# ------------------------------------------------------------------ Apalache (optional, not relied on)
+
+def _apalache(ctx):
+    """unbounded-integer cross-check of the closed form and of the scaling lemma (<= 4 split outputs).
+    Absent tool or timeout: logged only.  A counterexample would mean the spec's own lemma is false."""
+    import shutil
+    import subprocess
+    from ..tlc import SPEC_DIR
+    exe = shutil.which("apalache-mc")
+    res = {}
+    for mod, length in (("TxBuildApa", 1), ("TxScaleApa", 0)):
+        if not exe:
+            res[mod] = "apalache-mc not installed"
+            continue
+        out = tempfile.mkdtemp(prefix="vf-c13-apa-")
+        try:
+            p = subprocess.run([exe, "check", "--inv=Inv", "--length=%d" % length, "--out-dir=" + out, mod + ".tla"],
+                               cwd=SPEC_DIR, capture_output=True, text=True, timeout=240)
+            txt = p.stdout + p.stderr
+            if "The outcome is: NoError" in txt:
+                res[mod] = "NoError"
+            elif "The outcome is: Error" in txt:
+                raise MachineryError("Apalache found a counterexample to %s!Inv (unbounded integers)" % mod)
+            else:
+                res[mod] = "inconclusive (exit %s)" % p.returncode
+        except subprocess.TimeoutExpired:
+            res[mod] = "timeout"
+        finally:
+            shutil.rmtree(out, ignore_errors=True)
+        ctx.log("Apalache %s: %s" % (mod, res[mod]))
+    ctx.extra["apalache_unbounded"] = res
 
 
 # ------------------------------------------------------------------ create_signed_tx
@@ -739,3 +814,28 @@ def _signed_subset(ctx):
     ctx.replayed += n
     ctx.case(None, n)
     ctx.action("replay.MC_TxBuildReplay_signed", n)
+
+
+def replay(ctx, obj):
+    """./check C13 --replay replays/C13/<hash>.json : re-execute the recorded failing case"""
+    key, d = obj["key"], obj.get("detail") or {}
+    if key.startswith("C13|trace"):
+        rej = validate_traces(ctx, [d])
+        if rej:
+            ctx.fail(key, obj["what"], d)
+        return
+    rec = d.get("rec")
+    if rec is None:
+        print(json.dumps(obj, indent=1))
+        return
+    if key.startswith("C13|build-signed"):
+        fails = _signed_chunk([rec])[1]
+    elif key.startswith("C13|build") or key.startswith("C13|validate|honest"):
+        fails = _build_chunk(([rec], False))[1]
+    elif key.startswith("C13|validate"):
+        fails = _validate_chunk([rec])[1]
+    else:
+        fails = _conv_chunk(([rec], False))[1]
+    for k, what, detail in fails:
+        print("still failing: %s\n  %s" % (k, what))
+    _report(ctx, fails)
